@@ -240,6 +240,9 @@ def _sample_case(res, rng, ident):
         except util.Slow:
             res.count("skipped_slow_enumeration")
             return None
+        except Exception as e:  # anything but AldyException is not "an error that says so"
+            out, err = None, e
+            res.check("error_is_explanatory", False, f"the run ended with {type(e).__name__}: {e}", **desc)
     r = check_run(res, g, rec, out, err, gap, desc)
     if r and r[0] >= 2 and r[1] >= 2:
         desc["candidates"] = r[0]
@@ -274,6 +277,8 @@ def _empty_case(res, case):
             out = _sim.genotype(db, bam, None, None, cn_solution=user)
             err = None
         except AldyException as e:
+            out, err = None, e
+        except Exception as e:
             out, err = None, e
     nm = sum(len(l) for _, _, l in rec.major_calls)
     if nm == 0:
